@@ -42,8 +42,8 @@ ASSUMPTIONS = [
 MIN_COUNTERS = {
     'quick': {'fsm_ops_compared': 20000, 'fsm_inside_ops': 3000,
               'cond_waits_hung_checked': 300, 'ctx_checks': 20000},
-    'thorough': {'fsm_ops_compared': 2000000, 'fsm_inside_ops': 300000,
-                 'cond_waits_hung_checked': 30000, 'ctx_checks': 2000000},
+    'thorough': {'fsm_ops_compared': 4000000, 'fsm_inside_ops': 500000,
+                 'cond_waits_hung_checked': 60000, 'ctx_checks': 4000000},
 }
 
 
@@ -59,10 +59,10 @@ def plan(tier, seed):
         shards.append(dict(name='crt0', mode='rt', kind='cond-rt', secs=12, batch=25,
                            p_yield=0.03, hard_timeout=120))
     else:
-        for p, (f, n) in enumerate(split(500000, 10)):
+        for p, (f, n) in enumerate(split(2400000, 12)):
             shards.append(dict(name=f'fsm{p}', mode='nrt', kind='fsm', first_case=f,
                                n=n, secs=540, hard_timeout=700))
-        for p, (f, n) in enumerate(split(60000, 3)):
+        for p, (f, n) in enumerate(split(240000, 3)):
             shards.append(dict(name=f'cnrt{p}', mode='nrt', kind='cond-nrt',
                                first_case=f, n=n, secs=500, hard_timeout=700))
         for i in range(3):
